@@ -36,6 +36,12 @@ def compare(V, behs, seeds, what, ctor=None, run=None):
             continue
         for sd in seeds:
             text, exp = E.render(b["hist"], sd)
+            if (len(tasks) + sd) % 2 == 1:
+                text = text.replace("\n", "\r\n")        # the same script with CRLF line ends (passed as a str)
+            if (run or {}).get("output_mode") == "bigquery":
+                # bigquery mode reports a non-empty schema of a sequence / type / domain under `dataset`
+                exp = [(k_, ({("dataset" if kk == "schema" and vv else kk): vv for kk, vv in e_.items()} if k_ in ("sequence", "type", "domain") else e_), x_, t_)
+                       for (k_, e_, x_, t_) in exp]
             tasks.append((text, ctor or {}, run or {}))
             meta.append((b, exp))
     outs, nuniq = C.parse_many(tasks)
